@@ -1089,6 +1089,10 @@ func (m *Manager) isValidSignedData(signedData *types.SignedData) bool {
 	if !bytes.Equal(signedData.Signer.Address, m.genesis.ProposerAddress) {
 		return false
 	}
+	// the address must be the address of the key the signature is verified with
+	if signedData.Signer.PubKey == nil || !bytes.Equal(types.KeyAddress(signedData.Signer.PubKey), signedData.Signer.Address) {
+		return false
+	}
 	dataBytes, err := signedData.Data.MarshalBinary()
 	if err != nil {
 		return false
